@@ -82,11 +82,16 @@ seg_mod.now = _now
 filenode_mod.now = _now
 
 _node_read = hlib.strip_logs(node_mod.DownloadNode.read)
-for _n in ("_fetch_next", "_got_segment", "_retry_bad_segment", "_error", "stopProducing"):
-    hlib.strip_method(seg_mod.Segmentation, _n)
-hlib.encoded(seg_mod.Segmentation.__init__, seg_mod.Segmentation.start, seg_mod.Segmentation._done,
-             seg_mod.Segmentation._maybe_fetch_next, seg_mod.Segmentation._request_retired,
-             seg_mod.Segmentation.pauseProducing, seg_mod.Segmentation.resumeProducing, spans_mod.overlap)
+# Segmentation is driven only through its public surface (start / the Deferreds returned by the node's get_segment /
+# pauseProducing / resumeProducing / stopProducing); its private methods are looked up by name only to strip their log
+# statements and to record what was executed, so an internal re-organisation is decided, not a harness error.
+for _n, _f in list(vars(seg_mod.Segmentation).items()):
+    if callable(_f) and not isinstance(_f, (staticmethod, classmethod)) and hasattr(_f, "__code__"):
+        if _n in ("_fetch_next", "_got_segment", "_retry_bad_segment", "_error", "stopProducing"):
+            hlib.strip_method(seg_mod.Segmentation, _n)
+        else:
+            hlib.encoded(_f)
+hlib.encoded(spans_mod.overlap)
 
 
 def _collect(d):
@@ -331,8 +336,6 @@ def h_segmentation_known(F: int, S: int, offset: int, size: int, p: int) -> bool
         return "requested segments are not floor(offset/S) .. floor((offset+size-1)/S) in order"
     if cons.registered != 1 or cons.unregistered != 1 or cons.streaming is not True:
         return "producer registration"
-    if s._size != 0 or s._offset != offset + size:
-        return "Segmentation did not advance by what it delivered"
     tot = 0
     for u in ev.updates:
         tot = tot + u
@@ -347,9 +350,11 @@ def h_segmentation_guess(F: int, S: int, G: int, offset: int, size: int, p: int)
     pre: B.get("G") is None or G == B["G"]
     pre: 1 <= G
     pre: _segs_pre(F, S, offset, size, B.get("maxsegs", 2))
+    pre: (not B.get("bad_guess")) or (offset > 0 and (offset // G) * S >= F)
     post: _ == True
     """
     # the node only has a guessed segment size G (any value) until the first answer arrives
+    # (bad_guess: the guessed segment number lies beyond the last real segment => BadSegmentNumberError, then one retry)
     node = _ModelNode(F, S, G, False)
     cons = _Consumer()
     ev = _ReadEv()
@@ -358,6 +363,8 @@ def h_segmentation_guess(F: int, S: int, G: int, offset: int, size: int, p: int)
     out = _collect(s.start())
     _drain()
     _sane(out)
+    if cons.unregistered != 1:
+        return "read with a guessed segment size never finished (producer still registered: the read hangs)"
     if len(out) != 1 or out[0] is not cons:
         return "read with a guessed segment size did not complete (one retry is allowed after a wrong guess): %r" % (out,)
     r = _check_stream(cons.writes, offset, size, p)
